@@ -87,6 +87,9 @@ def run(R):
                       "(in the algebra they are unbound there and the comparison is an error). The executor hands the incoming solutions down into "
                       "every operand, so the rows a Filter evaluates also carry outer bindings: either the Filter's input is evaluated from fresh "
                       "bindings, or the row is restricted to the input's own variables before the condition is evaluated")
+    R.rule("C01-R19", "SUM over no solutions is 0: in both aggregators a floating-point `Iterator::sum` (which yields -0.0 for an empty "
+                      "iterator) is never formatted as it is - it is folded from +0.0, adjusted by arithmetic, or guarded by a non-emptiness test; "
+                      "otherwise an empty group prints \"-0\"")
     R.rule("C01-R14", "ORDER BY comparators (top level and subquery) agree and are lexicographic over ALL keys: each walks every sort key in "
                       "order, compares numerically when both values parse as numbers and lexically otherwise, reverses exactly under "
                       "DESC, returns at the first key that is not Equal and Equal only after the last key")
@@ -110,6 +113,7 @@ def run(R):
     r16(R)
     r17(R)
     r18(R)
+    r19(R)
     r14(R)
     r15(R)
 
@@ -1193,6 +1197,39 @@ def r18(R):
         R.ob("C01-R18", "filter-sees-outer-bindings", "the executor evaluates a FILTER condition only over the variables of the filter's own group", ok,
              where=x.where(c.ln), detail=None if ok else "the Filter arm executes its input on the incoming solutions and evaluates the condition on the merged "
              "rows: `?a <p> ?b . { FILTER(?a != <x>) }` filters on the outer ?a although ?a is unbound inside the nested group (the algebra drops every solution)")
+
+
+def r19(R):
+    prog = R.prog
+    readers = [R.body("C01-R19", "execute_query::aggregate_rows", crate="kolibrie"),
+               R.body("C01-R19", "ExecutionEngine::aggregate_subquery_rows", crate="kolibrie")]
+    nsum = 0
+    nagg = 0
+    for rd in readers:
+        if rd is None:
+            continue
+        for x in prog.family(rd.key):
+            for c in x.calls():
+                if c.name() in ("fold", "sum", "product") and c.dest is not None and x.local_ty(c.dest["l"]) in ("f64", "f32"):
+                    nagg += 1
+                if c.name() not in ("sum", "product") or c.dest is None or x.local_ty(c.dest["l"]) not in ("f64", "f32"):
+                    continue
+                nsum += 1
+                d = c.dest["l"]
+                direct = []
+                for c2 in x.calls():
+                    if c2.name() in ("to_string", "fmt", "new_display", "format") and c2.args and F.op_place(c2.args[0]) is not None:
+                        if x.alias_root(c2.args[0]) == d:
+                            direct.append(c2)
+                guarded = False
+                if direct:
+                    for cd in G.conditions(x, c.bb):
+                        if cd.get("kind") == "call" and cd["call"].name() in ("is_empty", "len"):
+                            guarded = True
+                R.ob("C01-R19", "sum-formatted:%s" % rd.name, "%s does not print a floating-point sum as it is" % rd.name, not direct or guarded,
+                     where=x.where(c.ln), detail=None if (not direct or guarded) else "Iterator::sum::<f64>() of an empty iterator is -0.0: SUM over a group "
+                     "without numeric values prints \"-0\"")
+    R.floor("C01-R19", "floating-point accumulations in the two aggregators (sum / fold)", nagg, 4)
 
 
 def r16(R):
